@@ -33,15 +33,16 @@ func TestMain(m *testing.M) {
 // ---- wire format ------------------------------------------------------------------------------------
 
 type job struct {
-	Kind    string       `json:"kind"`
-	Known   []string     `json:"known,omitempty"`   // active known-finding ids (the worker does not replay witnesses)
-	Journal string       `json:"journal,omitempty"` // file receiving the index of the sub-call in flight
-	Source  *sourceCase  `json:"source,omitempty"`
-	Builtin *builtinCase `json:"builtin,omitempty"`
-	Recur   *recurCase   `json:"recur,omitempty"`
-	Access  *accessCase  `json:"access,omitempty"`
-	Witness string       `json:"witness,omitempty"`
-	Sweep   *sweepCase   `json:"sweep,omitempty"`
+	Kind     string        `json:"kind"`
+	Known    []string      `json:"known,omitempty"`   // active known-finding ids (the worker does not replay witnesses)
+	Journal  string        `json:"journal,omitempty"` // file receiving the index of the sub-call in flight
+	Source   *sourceCase   `json:"source,omitempty"`
+	Builtin  *builtinCase  `json:"builtin,omitempty"`
+	Recur    *recurCase    `json:"recur,omitempty"`
+	Access   *accessCase   `json:"access,omitempty"`
+	Witness  string        `json:"witness,omitempty"`
+	Sweep    *sweepCase    `json:"sweep,omitempty"`
+	Callback *callbackCase `json:"callback,omitempty"`
 }
 
 // escaped is one Go panic that crossed otto's public API (recovered inside the worker).
@@ -130,6 +131,8 @@ func serve(raw json.RawMessage) json.RawMessage {
 		jr := openJournal(j.Journal)
 		res = runSweep(*j.Sweep, jr)
 		jr.close()
+	case "callback":
+		res = runCallback(*j.Callback)
 	case "witness":
 		res = runWitness(j.Witness)
 	default:
